@@ -18,8 +18,27 @@ SIM_ASSUME = [
 ]
 
 PROPS = {
+    "C37": dict(
+        pkg="internal/backend/sema", test="TestVerifC37", level="exploration", quick_s=25, thorough_s=600,
+        text="seeded search over interleavings of concurrent Save/Load/Stat/Remove calls of all file types with Freeze/Unfreeze through the real "
+             "connection-limiting wrapper; monitors inside the wrapped store check the in-flight limit and the freeze gate at every arrival and "
+             "that lock-file operations are never blocked at any quiescent point",
+        note="real sema wrapper with its mutex replaced by an equivalent schedulable mutex; wrapped store simulated; sampling, not exhaustive",
+        design_ref="3 / C37",
+        rule="one run = one seeded interleaving of 1-7 clients x 1-5 Save/Load/Stat/Remove calls of all file types through the real "
+             "connection-limiting wrapper (1-4 connections) with 0-3 Freeze/Unfreeze cycles of a controller; monitors in the wrapped store "
+             "see every arrival; distinct = distinct event-log hash among runs with >=1 real scheduling choice",
+        real_vs_stub="real: sema.connectionLimitedBackend, semaphore; simulated: wrapped object store, goroutine choice",
+        assumptions=SIM_ASSUME + ["an operation 'starts' when it arrives at the wrapped backend; operations that passed the freeze gate before Freeze returned count as in flight"],
+    ),
     "C44": dict(
         pkg="internal/repository", test="TestVerifC44", level="exploration", quick_s=40, thorough_s=600,
+        text="seeded search over schedules of concurrent blob savers, packer selection, pack uploads and index saves of the real Repository over a "
+             "simulated store (with and without transient Save errors); the store is decoded independently afterwards and every accepted blob must "
+             "be in exactly one uploaded pack with a matching durable index entry",
+        note="real repository/packer/index/crypto code with sync.Mutex replaced by an equivalent schedulable mutex; object store simulated; "
+             "header-entry limit checked but not reached; sampling, not exhaustive",
+        design_ref="3 / C44",
         rule="one run = one seeded schedule of 1-4 submitters saving 1-40 generated blobs (1 byte .. 3x pack size, both types, duplicates) "
              "through WithBlobUploader with pack size 2KiB-256KiB, 1-5 connections, 1-8 virtual cores, index-full threshold 3/10/40/real, "
              "format 1/2, compression off/auto/max, a third of the runs with transient Save errors; distinct = distinct event-log hash "
@@ -29,10 +48,42 @@ PROPS = {
     ),
     "C47": dict(
         pkg="internal/bloblru", test="TestVerifC47", level="exploration", quick_s=25, thorough_s=600,
+        text="seeded search over schedules of concurrent GetOrCompute calls (every mutex acquisition and every computation is a scheduling "
+             "point), accounting invariant checked at every quiescent point, results checked per call",
+        note="real bloblru.Cache and simplelru; goroutine choice and compute callback simulated; sampling, not exhaustive",
+        design_ref="3 / C47",
         rule="one run = one seeded schedule of 2-6 clients x 1-6 GetOrCompute calls over 1-5 IDs on a cache sized between "
              "'nothing fits' and 'everything fits', computations parked and failed from the tape; distinct = distinct event-log "
              "hash among runs in which the scheduler had at least one choice between >=2 parked goroutines or a fault fired",
         real_vs_stub="real: bloblru.Cache, simplelru; simulated: goroutine choice, compute callback",
         assumptions=SIM_ASSUME,
     ),
+}
+
+
+TECHNIQUE = "deterministic simulation with fault injection (seeded search over schedules and faults, replayable choice tape)"
+
+# properties not claimed, with the reason (DESIGN.md section 4)
+NOT_APPLICABLE = {
+    "C05": "Key.Seal/Open/KDF validation are pure functions of byte slices; no schedule, clock, I/O or fault to simulate.",
+    "C07": "Save-then-load of an unpacked file is a deterministic encode/decode of payload and repository version; nothing to interleave or fail.",
+    "C18": "restore works in phases with barriers, so containment depends only on the snapshot tree and the pre-existing target, not on a schedule or fault.",
+    "C20": "which paths restore selects/deletes is a pure function of tree, patterns and target contents.",
+    "C22": "ApplyPolicy is a pure function of the snapshot list and policy (it does not read the clock).",
+    "C23": "what forget removes is a pure function of snapshots, policy/IDs and flags.",
+    "C24": "filters, grouping and 'latest' are pure functions of the snapshot set.",
+    "C25": "resulting tag sets are a pure function of old tags and add/remove/set lists (the crash aspect is C26).",
+    "C27": "the rewritten tree is a pure function of tree and patterns.",
+    "C28": "glob matching is a pure function of pattern and path.",
+    "C30": "init's refusal is a pure function of which files pre-exist and of the requested version/polynomial.",
+    "C39": "'nothing is written' is a pure function of command and repository state; no schedule or fault can matter.",
+    "C40": "the tree stored by an incremental backup is a pure function of the sequence of source states.",
+    "C48": "set length/enumeration is a pure function of index contents and the operation sequence.",
+    "C49": "parsers of durations, sizes, counts, options: pure functions of a string.",
+    "C50": "password stripping: pure function of a location string.",
+    "C52": "bucket partition: pure function of pack IDs and n/t (the random subset holds for every RNG outcome).",
+    "C53": "diff output: pure function of two trees.",
+    "C54": "restore-size statistics: pure function of the trees.",
+    "C56": "hash-table behaviour: pure function of the insertion sequence (single-threaded structure).",
+    "C57": "prefix resolution: pure function of the ID set and prefix.",
 }
